@@ -1,5 +1,147 @@
-(* C06 - placeholder while the proofs are being written; replaced below. *)
-From Coq Require Import List.
-From PMS Require Import Model.Gateway.
-Theorem C06_placeholder : True. Proof. exact I. Qed.
-Print Assumptions C06_placeholder.
+(* C06 - node ids are never handed out twice.  Statements only.
+   Machine: Model/Gateway.v (next_id, add_sensor, handle_id_request, the dispatcher, step,
+   save_tick, restart) over the GENERATED tables and registry (MAX_NODE_ID, I_ID_RESPONSE, which
+   handler I_ID_REQUEST resolves to); oracles universally quantified.
+   Persistence machine: Proofs/DirtyProofs.v (pop, pstep, prun).
+   `id_of_pstep v s o` = the id carried by the id response produced by step o in state s
+   (None: the step produces none); tied to handle_id_request by C06_id_of_line_sound/_complete
+   and C06_logic_id_request.  `ids_handed` collects them over a history. *)
+From Coq Require Import List NArith ZArith Bool String Sorted.
+From PMS Require Import Base.PyStr Base.PyInt Base.Exn Model.Codec Model.TableTypes Gen.Tables Model.Validate
+  Model.Oracles Model.Hex Model.Ota Model.Gateway Spec.SerialApi Proofs.GwInv
+  Spec.TreeMeaning Proofs.TreeProofs Proofs.TreeHistory Proofs.DirtyProofs Proofs.IdProofs.
+Import ListNotations.
+Open Scope Z_scope.
+
+(* C06.1: the id in an id response: printed in the payload, in 1..254, not a known node before,
+   a known node afterwards (reserved at once, appended as a fresh node), above every known id *)
+Theorem C06_id_response_fresh :
+  forall v g m g' r, cfg_is v (g_cf g) -> in_range (keys (g_sensors g)) ->
+    handle_id_request g m = Ok (g', Some r) ->
+    exists nid, m_payload r = print nid /\ 1 <= nid <= 254 /\
+                zhas nid (g_sensors g) = false /\ zhas nid (g_sensors g') = true /\
+                (forall k, zhas k (g_sensors g) = true -> k < nid) /\
+                g_sensors g' = g_sensors g ++ [(nid, new_node nid)].
+Proof. exact id_response_fresh. Qed.
+
+(* through the dispatcher, every configuration: an accepted id request (3;3) runs
+   handle_id_request on the current state itself; its reply is only routed afterwards *)
+Theorem C06_logic_id_request :
+  forall orc clock v g l m g' r, cfg_is v (g_cf g) -> Inv orc g ->
+    decode l = Some m -> gvalidate orc g m = true -> m_type m = 3 -> m_sub m = 3 ->
+    logic orc clock g l = Ok (g', r) ->
+    exists g1 rep routed, handle_id_request g m = Ok (g1, rep) /\ route_opt g1 rep = (g', routed) /\
+                          r = option_map encode routed.
+Proof. exact logic_id_request. Qed.
+
+(* the hypothesis of C06.1 holds in every reachable state: keys are in 0..255 *)
+Theorem C06_keys_in_range :
+  forall orc clock v cf ops, cfg_is v cf -> Forall op_ok ops ->
+    in_range (keys (g_sensors (run orc clock (gw_init cf) ops))).
+Proof. exact keys_in_range. Qed.
+
+(* C06.2: no step of any history removes a known node id *)
+Theorem C06_keys_monotone :
+  forall orc clock v ops g k, cfg_is v (g_cf g) -> Inv orc g -> Forall op_ok ops ->
+    in_range (keys (g_sensors g)) -> zhas k (g_sensors g) = true ->
+    zhas k (g_sensors (run orc clock g ops)) = true /\
+    in_range (keys (g_sensors (run orc clock g ops))).
+Proof. exact keys_monotone. Qed.
+
+(* id_of_line (inside id_of_pstep) is exactly what handle_id_request answers *)
+Theorem C06_id_of_line_sound :
+  forall orc v g l n, cfg_is v (g_cf g) -> id_of_line orc v (proj (g_sensors g)) l = Some n ->
+    exists m g1 rsp, decode l = Some m /\ gvalidate orc g m = true /\ is_id_request m = true /\
+                     handle_id_request g m = Ok (g1, Some rsp) /\ m_payload rsp = print n.
+Proof. exact id_of_line_sound. Qed.
+
+Theorem C06_id_of_line_complete :
+  forall orc v g l m, cfg_is v (g_cf g) -> decode l = Some m ->
+    gvalidate orc g m = true -> is_id_request m = true ->
+    id_of_line orc v (proj (g_sensors g)) l = None -> handle_id_request g m = Ok (g, None).
+Proof. exact id_of_line_complete. Qed.
+
+(* C06.2 + C06.4 over ALL histories of messages, pump iterations, controller calls, periodic
+   saves and - with persistence enabled - clean stop/restarts, both task flavours, all five
+   configurations: the ids handed out are pairwise distinct (strictly increasing) and in 1..254 *)
+Theorem C06_ids_never_twice :
+  forall orc clock v cf pops, cfg_is v cf -> Forall (pop_ok2 cf) pops ->
+    NoDup (ids_handed orc clock v (gw_init cf, None) pops) /\
+    StronglySorted Z.lt (ids_handed orc clock v (gw_init cf, None) pops) /\
+    Forall (fun n => 1 <= n <= 254) (ids_handed orc clock v (gw_init cf, None) pops).
+Proof. exact ids_never_twice. Qed.
+
+(* ... and each differs from (exceeds) every node known at the time, and is known afterwards *)
+Theorem C06_id_fresh_in_history :
+  forall orc clock v cf pops o n, cfg_is v cf -> Forall (pop_ok2 cf) pops -> pop_ok2 cf o ->
+    let s := prun orc clock (gw_init cf, None) pops in
+    id_of_pstep orc v s o = Some n ->
+    1 <= n <= 254 /\ zhas n (g_sensors (fst s)) = false /\
+    (forall k, zhas k (g_sensors (fst s)) = true -> k < n) /\
+    zhas n (g_sensors (fst (pstep orc clock s o))) = true.
+Proof. exact id_fresh_in_history. Qed.
+
+(* C06.3: when no id can be allocated: no response, state unchanged *)
+Theorem C06_exhaustion_silent :
+  forall v g m k, cfg_is v (g_cf g) -> zhas k (g_sensors g) = true -> 254 <= k ->
+    handle_id_request g m = Ok (g, None).
+Proof. exact exhaustion_silent. Qed.
+
+Theorem C06_exhaustion_silent_logic :
+  forall orc clock v g l m k, cfg_is v (g_cf g) -> Inv orc g ->
+    decode l = Some m -> gvalidate orc g m = true -> m_type m = 3 -> m_sub m = 3 ->
+    zhas k (g_sensors g) = true -> 254 <= k ->
+    logic orc clock g l = Ok (g, None).
+Proof. exact exhaustion_silent_logic. Qed.
+
+(* C06.4: a clean stop/restart keeps the whole list of known / reserved ids *)
+Theorem C06_restart_keeps_reservations :
+  forall orc clock v cf pops, cfg_is v cf -> cf_persist cf = true -> Forall pop_ok pops ->
+    let s := prun orc clock (gw_init cf, None) pops in
+    keys (g_sensors (fst (pstep orc clock s PRestart))) = keys (g_sensors (fst s)).
+Proof. exact restart_keeps_reservations. Qed.
+
+(* non-vacuity.  The D7 scenario: present 1; periodic save; id request; stop+restart; id request
+   hands out 2 and then 3 (before the fix of D7 the second request got 2 again) *)
+Example C06_d7_scenario :
+  let cf := mkConfig tab_22 true true true true in
+  let h := [POp (Recv (s2p "1;255;0;0;3;x")); PSave; POp (Recv (s2p "255;255;3;0;3;")); PRestart;
+            POp (Recv (s2p "255;255;3;0;3;"))] in
+  Forall (pop_ok2 cf) h /\ ids_handed no_oracles 0 V22 (gw_init cf, None) h = [2; 3] /\
+  filter (fun e => match e with ESend _ => true | _ => false end)
+         (g_log (fst (prun no_oracles 0 (gw_init cf, None) h))) = [ESend (s2p "255;255;3;0;4;3" ++ [nl])].
+Proof. split; [repeat constructor|]. vm_compute. split; reflexivity. Qed.
+
+(* threaded flavour: the id is handed out when the pump runs the queued line *)
+Example C06_threaded :
+  let cf := mkConfig tab_20 true false false false in
+  let h := [POp (Recv (s2p "255;255;3;0;3;")); POp (Recv (s2p "255;255;3;0;3;")); POp Pump; POp Pump; POp Pump] in
+  ids_handed no_oracles 0 V20 (gw_init cf, None) h = [1; 2].
+Proof. vm_compute. reflexivity. Qed.
+
+(* exhaustion: node 254 known: an id request changes nothing and is not answered *)
+Example C06_exhausted :
+  let cf := mkConfig tab_22 true true true true in
+  let g := run no_oracles 0 (gw_init cf) [Recv (s2p "254;255;0;0;3;x")] in
+  zhas 254 (g_sensors g) = true /\
+  step no_oracles 0 g (Recv (s2p "255;255;3;0;3;")) = g.
+Proof. vm_compute. split; reflexivity. Qed.
+
+(* the persistence hypothesis on restarts is needed: without persistence a restart forgets *)
+Example C06_without_persistence_restart_forgets :
+  let cf := mkConfig tab_22 true true true false in
+  ids_handed no_oracles 0 V22 (gw_init cf, None)
+    [POp (Recv (s2p "255;255;3;0;3;")); PRestart; POp (Recv (s2p "255;255;3;0;3;"))] = [1; 1].
+Proof. vm_compute. reflexivity. Qed.
+
+Print Assumptions C06_id_response_fresh.
+Print Assumptions C06_logic_id_request.
+Print Assumptions C06_keys_in_range.
+Print Assumptions C06_keys_monotone.
+Print Assumptions C06_id_of_line_sound.
+Print Assumptions C06_id_of_line_complete.
+Print Assumptions C06_ids_never_twice.
+Print Assumptions C06_id_fresh_in_history.
+Print Assumptions C06_exhaustion_silent.
+Print Assumptions C06_exhaustion_silent_logic.
+Print Assumptions C06_restart_keeps_reservations.
